@@ -94,7 +94,9 @@ theorem compile_total_Fz : ∀ (ex : Bool) (self : String) (e : Expr), Fz ex sel
       simp only [Bool.and_eq_true, Bool.or_eq_true] at he
       obtain ⟨code, g1, h1, h2, h3⟩ := compile_total_call_ls he.1.1.1 he.1.1.2 he.2 isFn c gs hfn
       exact ⟨code, _, g1, h1, h2, h3⟩
-    | _ => simp [Fz] at he
+    | _ =>
+      rw [fz_call_nonsym (fun _ hh => by cases hh)] at he
+      exact total_of_Ff he isFn c gs hfn
   | ex, self, .begin_ es, he, isFn, c, gs, hfn, hex => by
     rw [Fz] at he
     cases es with
@@ -1151,7 +1153,9 @@ theorem tclaimE_succ {n : Nat} (hFE1 : FClaimE (n + 1)) (hXE1 : XClaimE (n + 1))
       | zero => rw [Ref.eval, Ref.eval]; trivial
       | succ k =>
         exact simT_selfcall hV hA hU (hG k rfl) he.1.1.1 he.1.1.2 he.1.2 he.2 isFn c gs r hc hfn hkn hps hact hna hva.1 hva.2 hrel hseg
-    | _ => simp [Fz] at he
+    | _ =>
+      rw [fz_call_nonsym (fun _ hh => by cases hh)] at he
+      exact hff he
   | begin_ es =>
     rw [Fz] at he
     cases es with
